@@ -336,6 +336,9 @@ func genCase(r *hx.Rand, tier string) *caseT {
 	if !simple && r.Chance(1, 12) {
 		k.Head = true
 	}
+	if !simple && r.Chance(1, 8) {
+		k.Wrap = hx.Pick(r, []string{"outer-noflush", "outer-noflush", "outer-flush", "inner-noflush", "inner-flush"})
+	}
 	pn := -1
 	if !k.Head && r.Chance(1, 14) {
 		// the handler panics somewhere; recovery.New() sits in front of the compression middleware
@@ -466,6 +469,25 @@ func genGroup(r *hx.Rand) []caseT {
 	return g
 }
 
+// genSeq generates a sequence: ordinary cases (distinct paths, different Accept-Encoding, statuses, types) that share
+// the options of the first one and are served one after the other by one middleware instance.
+func genSeq(r *hx.Rand, tier string) []caseT {
+	n := r.Range(3, 5)
+	var g []caseT
+	for len(g) < n {
+		k := genCase(r, tier)
+		if k.Recovery || len(k.Pre) > 0 || k.Wrap != "" || hasOp(k.Prog, "Hj") || hasOp(k.Prog, "Cx") || len(k.Group) > 0 {
+			continue
+		}
+		k.Path = k.Path + "-s" + strconv.Itoa(len(g))
+		if len(g) > 0 && r.Chance(1, 3) {
+			k.AE = g[0].AE // the same client again
+		}
+		g = append(g, *k)
+	}
+	return g
+}
+
 // fixedGroups: request A holds 200 bytes back while request B is served completely; then A goes on.
 func fixedGroups() [][]caseT {
 	gz := sp("gzip")
@@ -536,6 +558,9 @@ func fixedCases() []*caseT {
 			{K: "D", Key: "Cache-Control"}, {K: "H", Key: "X-Cache-Control", Vals: []string{"private"}}, {K: "B", Data: []byte("body")}}},
 		{Path: "/p", AE: gz, Opt: optT{MinSize: 1024}, Prog: []opT{ct, {K: "H", Key: "Cache-Control", Vals: []string{"no-store"}}, {K: "H", Key: "X-Early", Vals: []string{"original"}}, {K: "W", Code: 200},
 			{K: "D", Key: "Cache-Control"}, {K: "D", Key: "X-Early"}, {K: "H", Key: "X-Late", Vals: []string{"1"}}, {K: "B", Data: []byte("body")}}},
+		// another middleware's writer without Flush in front of the compression middleware: the handler's Flush does nothing
+		{Path: "/p", AE: gz, Wrap: "outer-noflush", Prog: []opT{ct, {K: "F"}, {K: "W", Code: 404}, {K: "B", Data: []byte("not found")}}},
+		{Path: "/p", AE: gz, Wrap: "inner-noflush", Prog: []opT{ct, {K: "F"}, {K: "W", Code: 404}, {K: "B", Data: []byte("not found")}}},
 		// HEAD, Range and conditional requests
 		{Path: "/p", AE: gz, Head: true, Prog: []opT{ct, {K: "W", Code: 200}, {K: "B", Data: []byte("head body")}}},
 		{Path: "/p", AE: gz, Head: true, Prog: []opT{{K: "B", Data: []byte("<html>sniff me")}}},
